@@ -768,6 +768,21 @@ func checkCtypeFlow(c *Ctx, set []*ssa.Function, isSource func(ssa.Value) bool, 
 	for _, f := range set {
 		inSet[f] = true
 	}
+	// in a helper that joined the set, the typed values are what it is handed: its
+	// geometry-, sequence- and coordinates-type-valued parameters (its call sites are
+	// checked as uses of "another routine of the same decoder")
+	joined := map[*ssa.Function]bool{}
+	origSource := isSource
+	isSource = func(v ssa.Value) bool {
+		if origSource(v) {
+			return true
+		}
+		if p, ok := v.(*ssa.Parameter); ok && joined[p.Parent()] {
+			tn := namedName(p.Type())
+			return geomTypeNames[tn] || tn == "Sequence" || tn == "CoordinatesType" || tn == "Coordinates"
+		}
+		return false
+	}
 	// helpers introduced after the baseline that the routines call and that return a
 	// geometry are routines of the same decoder (checked like the others)
 	for i := 0; i < len(set); i++ {
@@ -778,6 +793,7 @@ func checkCtypeFlow(c *Ctx, set []*ssa.Function, isSource func(ssa.Value) bool, 
 			}
 			if res := cal.Signature.Results(); res.Len() >= 1 && geomTypeNames[namedName(res.At(0).Type())] {
 				inSet[cal] = true
+				joined[cal] = true
 				set = append(set, cal)
 			}
 		})
